@@ -572,6 +572,9 @@ def _items():
         return [], dict(resources=sel, header_print=_uf('header_print'), table_print=_uf('table_print'))
     items.append(_closure_item('printer.step', 'printer.py', 'printer', 'step', 'dataflows.processors.printer', pr_args,
                                gen_of({'func'}), 'step#L0'))
+    # load of a (descriptor, iterators) pair: the selector keeps its meaning (also 0, [] and ''); contract in contracts/C13.py
+    items.append(Item('load.tuple-source', lambda vc: __import__('contracts.C13', fromlist=['sym_tuple_source']).sym_tuple_source(vc), [],
+                      P + 'load.py::load.safe_process_datapackage'))
     items.append(Item('pipeline', None, [('frame-differential', nat_pipeline), ('whole-resource-steps', nat_whole_resource_steps)], None))
     from contracts import natives as NAT
     items.append(Item('load.pair', None, [('sequential-source-selectors', NAT.nat_load_pair_selectors)],
